@@ -835,7 +835,7 @@ impl Parser {
     //@  requires old(self).cur().loop_stack@.len() == old(self).cur().break_stack@.len(), breaks_ok(old(self).cur())
     //@  ensures final(self).pwf(), old(self).has_error() ==> final(self).has_error()
     //@  assert @hidden_values_own_slots before_stmt "self.compiler_mut().push_loop()" self.has_error() || self.cur().locals@.len() == old(self).cur().locals@.len() + 2
-    //@  before_stmt "let (loop_start, _)" proof { assert(all_initialised(self.cur().locals@)); assert(breaks_ok(self.cur())); }
+    //@  before_stmt "let (loop_start," proof { assert(all_initialised(self.cur().locals@)); assert(breaks_ok(self.cur())); }
     //@  at body.start let ghost l0 = self.cur().locals@; let ghost n0 = self.cur().locals@.len() as int;
     //@  after_stmt "self.declare_variable()" let ghost l1 = self.cur().locals@; proof { assert(forall|j: int| 0 <= j < n0 ==> l1[j] == l1.subrange(0, n0)[j]); assert(forall|j: int| 0 <= j < n0 ==> (#[trigger] l1[j]).depth.is_some()); }
     //@  after_stmt "self.expression()" let ghost l2 = self.cur().locals@; proof { assert(forall|j: int| 0 <= j < n0 ==> (#[trigger] l2[j]).depth.is_some()); }
